@@ -7,6 +7,7 @@
 #  (4) the demonstration PASSES on the original code
 # Writes /verif/seeded/<id>/verify.log
 S=$1; CRATE=${2:-glaredb_core}; FILTER=${3:-}
+mkdir -p /tmp/vv; exec 9>/tmp/vv/verify.lock; flock 9   # one verification at a time (shared scratch worktree)
 D=/verif/seeded/$S
 W=/tmp/vv/wt
 export CARGO_TARGET_DIR=/tmp/vv/target CARGO_NET_OFFLINE=true
